@@ -452,9 +452,41 @@ func atomsOf(facts []Fact) []Atom {
 			}
 		}
 		out = append(out, Atom{Kind: "true", X: v, Truth: t})
+		// a condition moved into a small boolean helper is judged as if written in place: when the helper has
+		// exactly one way of returning this truth value (a conjunction for true, a disjunction for false) the
+		// facts of that way hold too; its parameters are bound to the arguments (paramBind)
+		if helperDepth < 2 {
+			if call, ok := v.(*ssa.Call); ok {
+				if g := call.Call.StaticCallee(); isSmallHelper(g) && g.Signature.Results().Len() == 1 && isBoolType(g.Signature.Results().At(0).Type()) {
+					var ways [][]Fact
+					okEnum := enumPaths(g, 64, func(pr PathResult) {
+						rv := pr.Resolve(pr.Ret.Results[0])
+						if cv, isC := rv.(*ssa.Const); isC && cv.Value != nil && cv.Value.Kind() == constant.Bool {
+							if constant.BoolVal(cv.Value) == t {
+								ways = append(ways, pr.Facts)
+							}
+							return
+						}
+						ways = append(ways, append(append([]Fact(nil), pr.Facts...), Fact{Cond: rv, Truth: t}))
+					})
+					if okEnum && len(ways) == 1 {
+						for i, prm := range g.Params {
+							if i < len(call.Call.Args) {
+								paramBind[prm] = call.Call.Args[i]
+							}
+						}
+						helperDepth++
+						out = append(out, atomsOf(ways[0])...)
+						helperDepth--
+					}
+				}
+			}
+		}
 	}
 	return out
 }
+
+var helperDepth int
 
 // resultOf reports whether v is result #idx of call (idx<0: any result).
 // Conversions are looked through.
@@ -484,6 +516,13 @@ func stripConv(v ssa.Value) ssa.Value {
 			v = x.X
 		case *ssa.MakeInterface:
 			v = x.X
+		case *ssa.Parameter:
+			// a parameter of a helper whose facts / results were inlined stands for its argument
+			if a, has := paramBind[x]; has && a != v {
+				v = a
+				continue
+			}
+			return v
 		default:
 			return v
 		}
@@ -771,20 +810,78 @@ func fieldWrites(fn *ssa.Function) []FieldWrite {
 
 // loadedField: v is the value loaded from a struct field (x.f) — returns f and x.
 func loadedField(v ssa.Value) (*types.Var, ssa.Value) {
+	v = bound(v)
 	switch x := v.(type) {
 	case *ssa.UnOp:
 		if x.Op == token.MUL {
 			if fa, ok := x.X.(*ssa.FieldAddr); ok {
-				return fieldOfAddr(fa), fa.X
+				return fieldOfAddr(fa), bound(fa.X)
 			}
 		}
 	case *ssa.Field:
-		return structField(x.X.Type(), x.Field), x.X
+		return structField(x.X.Type(), x.Field), bound(x.X)
 	case *ssa.FieldAddr:
 		// address of an array-typed field used as IndexAddr base
-		return fieldOfAddr(x), x.X
+		return fieldOfAddr(x), bound(x.X)
 	}
 	return nil, nil
+}
+
+// bound resolves a parameter of a helper that a backward walk entered to the
+// argument it was entered with (see paramBind).
+func bound(v ssa.Value) ssa.Value {
+	for i := 0; i < 4; i++ {
+		// a parameter captured by a closure is spilled to a cell: *cell with the parameter as only store
+		if u, isU := v.(*ssa.UnOp); isU && u.Op == token.MUL {
+			if a, isA := u.X.(*ssa.Alloc); isA {
+				var only ssa.Value
+				n := 0
+				for _, r := range *a.Referrers() {
+					if st, ok := r.(*ssa.Store); ok && st.Addr == a {
+						n++
+						only = st.Val
+					}
+				}
+				if prm, isP := only.(*ssa.Parameter); n == 1 && isP {
+					if _, has := paramBind[prm]; has {
+						v = prm
+					}
+				}
+			}
+		}
+		p, ok := v.(*ssa.Parameter)
+		if !ok {
+			return v
+		}
+		a, has := paramBind[p]
+		if !has {
+			return v
+		}
+		v = a
+	}
+	return v
+}
+
+// enterHelper binds the parameters of a small repository helper to the
+// arguments of call and returns the values the helper returns (nil if the
+// callee is not such a helper).
+func enterHelper(call *ssa.Call) []ssa.Value {
+	g := call.Call.StaticCallee()
+	if !isSmallHelper(g) {
+		return nil
+	}
+	for i, prm := range g.Params {
+		if i < len(call.Call.Args) {
+			paramBind[prm] = call.Call.Args[i]
+		}
+	}
+	var out []ssa.Value
+	for _, b := range g.Blocks {
+		if r, isRet := b.Instrs[len(b.Instrs)-1].(*ssa.Return); isRet && b != g.Recover {
+			out = append(out, r.Results...)
+		}
+	}
+	return out
 }
 
 // fieldReads lists loads of a struct field in fn.
@@ -1004,6 +1101,7 @@ func alwaysWith(site ssa.Instruction, gates []ssa.Instruction) bool {
 // below a value.
 func backward(v ssa.Value, visit func(ssa.Value) bool) {
 	seen := map[ssa.Value]bool{}
+	depth := 0
 	var walk func(v ssa.Value)
 	walk = func(v ssa.Value) {
 		if v == nil || seen[v] {
@@ -1018,6 +1116,50 @@ func backward(v ssa.Value, visit func(ssa.Value) bool) {
 				if op != nil && *op != nil {
 					walk(*op)
 				}
+			}
+		}
+		// the result of a small repository helper is also what the helper returns: a computation
+		// moved into a helper is followed with the helper's parameters bound to the arguments
+		if call, ok := v.(*ssa.Call); ok && depth < 3 {
+			if g := call.Call.StaticCallee(); isSmallHelper(g) {
+				for i, prm := range g.Params {
+					if i < len(call.Call.Args) {
+						paramBind[prm] = call.Call.Args[i]
+					}
+				}
+				depth++
+				for _, b := range g.Blocks {
+					if r, isRet := b.Instrs[len(b.Instrs)-1].(*ssa.Return); isRet && b != g.Recover {
+						for _, res := range r.Results {
+							walk(res)
+						}
+					}
+				}
+				depth--
+			}
+		}
+		if ex, ok := v.(*ssa.Extract); ok && depth < 3 {
+			// result #i of a helper with several results
+			if call, ok := ex.Tuple.(*ssa.Call); ok {
+				if g := call.Call.StaticCallee(); isSmallHelper(g) {
+					for i, prm := range g.Params {
+						if i < len(call.Call.Args) {
+							paramBind[prm] = call.Call.Args[i]
+						}
+					}
+					depth++
+					for _, b := range g.Blocks {
+						if r, isRet := b.Instrs[len(b.Instrs)-1].(*ssa.Return); isRet && b != g.Recover && ex.Index < len(r.Results) {
+							walk(r.Results[ex.Index])
+						}
+					}
+					depth--
+				}
+			}
+		}
+		if prm, ok := v.(*ssa.Parameter); ok {
+			if a, has := paramBind[prm]; has {
+				walk(a)
 			}
 		}
 		// loads of a local allocation: follow what was stored
@@ -1054,6 +1196,33 @@ func backward(v ssa.Value, visit func(ssa.Value) bool) {
 		}
 	}
 	walk(v)
+}
+
+// paramBind binds the parameters of helpers entered by a backward walk to the
+// arguments of the call through which they were entered (dynamic scope: the
+// latest entry wins, which is the call being walked).
+var paramBind = map[*ssa.Parameter]ssa.Value{}
+
+// isSmallHelper: an unexported, non-recursive repository function with a body of
+// moderate size — the kind of function a statement or an expression is
+// extracted into. Rules treat its result as computed at the call site.
+func isSmallHelper(g *ssa.Function) bool {
+	if g == nil || g.Blocks == nil || g.Pkg == nil || !strings.HasPrefix(g.Pkg.Pkg.Path(), "github.com/youchainhq/go-youchain") {
+		return false
+	}
+	if o := g.Object(); o == nil || o.Exported() {
+		return false
+	}
+	n := 0
+	for _, b := range g.Blocks {
+		n += len(b.Instrs)
+		for _, in := range b.Instrs {
+			if c, ok := in.(ssa.CallInstruction); ok && c.Common().StaticCallee() == g {
+				return false
+			}
+		}
+	}
+	return n <= 60
 }
 
 // derivesFrom: some value in the backward slice of v satisfies pred.
@@ -1799,4 +1968,29 @@ func definitelyNonNil(v ssa.Value) bool {
 		return isErrorCtor(x)
 	}
 	return false
+}
+
+// withSmallHelpers returns fn together with the small repository helpers it
+// calls statically (depth 2): "fn contains …" rules look at all of them, so
+// that a statement moved into a helper is still found.
+func withSmallHelpers(fn *ssa.Function) []*ssa.Function {
+	out := []*ssa.Function{fn}
+	seen := map[*ssa.Function]bool{fn: true}
+	frontier := []*ssa.Function{fn}
+	for depth := 0; depth < 2; depth++ {
+		var next []*ssa.Function
+		for _, f := range frontier {
+			for _, x := range withClosures(f) {
+				for _, ci := range callInstrs(x) {
+					if g := ci.Common().StaticCallee(); g != nil && !seen[g] && isSmallHelper(g) {
+						seen[g] = true
+						out = append(out, g)
+						next = append(next, g)
+					}
+				}
+			}
+		}
+		frontier = next
+	}
+	return out
 }
